@@ -2,7 +2,8 @@ import SE.Spec.Mapping
 /-
 Statement vocabulary for C11: the reference names a template mentions (as `expandSpec` scans it; and
 `regexp.Expand` too when no name is directly followed by a byte ≥ 0x80, `refsAsciiFollowed`), and the decidable guard `SafeTemplate` under which the glob formatter
-(with the repaired reference regex `\$\{?([a-zA-Z0-9_]+)\}?`) provably agrees with `expandSpec`.
+(with the repaired reference regex `\$\{?([a-zA-Z0-9_]+)\}?`, and — since the repair b74fba2 — `%` escaped and all
+references substituted in one left-to-right pass) provably agrees with `expandSpec`.
 -/
 namespace SE
 
@@ -40,12 +41,6 @@ def flatSegs : List Seg → Bytes
   | [] => []
   | s :: segs => s.text ++ flatSegs segs
 
-/-- the texts of the references of a segment list -/
-def refTexts : List Seg → List Bytes
-  | [] => []
-  | .lit _ :: segs => refTexts segs
-  | .ref b ds :: segs => refText b ds :: refTexts segs
-
 /-- what may follow a reference: after a braced one anything; after a bare `$ds` either the end of
     the template or an ASCII byte (`< 0x80`) outside `[a-zA-Z0-9_}]` — in particular `$`, the start of
     the next reference (a word byte would not be "following" but part of the name; a `}` would be
@@ -60,20 +55,21 @@ def followOk : List Seg → Bool
      | [] => true
      | c :: _ => !isWordByte c && c != cRBrace && c < 0x80) && followOk segs
 
-/-- per-segment conditions: literals contain neither `$` nor `%`; a reference name is a non-empty
-    run of `[A-Za-z0-9_]` that is either a decimal number as `regexp.Expand` reads it (no leading
-    zero unless the number is `0`, at most 8 digits) or not purely numeric (then it names no
-    capture and expands to nothing: `$foo`, `$1_total`) -/
+/-- per-segment conditions: a literal contains no `$` (it may contain `%`, and any other byte: since
+    the repair b74fba2 the formatter escapes `%` before it builds its format string); a reference
+    name is a non-empty run of `[A-Za-z0-9_]` that is either a decimal number as `regexp.Expand`
+    reads it (no leading zero unless the number is `0`, at most 8 digits) or not purely numeric
+    (then it names no capture and expands to nothing: `$foo`, `$1_total`) -/
 def segOk : Seg → Bool
-  | .lit l => !l.contains cDollar && !l.contains cPct
+  | .lit l => !l.contains cDollar
   | .ref _ ds => !ds.isEmpty && ds.all isWordByte && ((rxNum ds).isSome || !ds.all isDigitB)
 
-/-- no reference text is a proper prefix of another reference text (`$1` vs `$11`) -/
-def prefixFree (ts : List Bytes) : Bool :=
-  ts.all fun a => ts.all fun b => !a.isPrefixOf b || a == b
-
+/-- every segment is fine and what follows a bare reference is fine. (Before the repair b74fba2
+    there was a third conjunct, "no reference text is a proper prefix of another one": the
+    references were substituted one after the other with `strings.ReplaceAll`. They are now
+    substituted in a single pass, and `$1` and `$11` may occur together.) -/
 def SafeSegs (segs : List Seg) : Bool :=
-  segs.all segOk && followOk segs && prefixFree (refTexts segs)
+  segs.all segOk && followOk segs
 
 /-- a (not verified, and not needing verification) tokenizer: `SafeTemplate` checks its output -/
 def segsOf : Nat → Bytes → Bytes → List Seg
@@ -89,17 +85,20 @@ def segsOf : Nat → Bytes → Bytes → List Seg
 
 /-- **The guard of the partial C11 theorem** (decidable: a `Bool`). A template is safe when it
     reads as literals and references such that
-    * no literal contains `$` or `%` (so every `$` starts a reference, and there is no `$$`),
+    * no literal contains `$` (so every `$` starts a reference, and there is no `$$`); a literal may
+      contain `%` — `100%-$1`, `50%s-$1`, `%d$2%%$1` are safe,
     * every reference is `$name` or `${name}`, `name` a non-empty run of `[A-Za-z0-9_]` that is
       either a decimal number without leading zero of ≤ 8 digits, or not purely numeric,
     * a bare `$name` is followed by the end of the template or by an ASCII byte (`< 0x80`) outside
       `[a-zA-Z0-9_}]` (so no `}` follows directly; another reference may: `$1$2`, `$1${2}`; a
       non-ASCII byte may not: `$1é`, where the regex side's `regexp.Expand` reads the name `1é` —
-      literals may contain non-ASCII bytes anywhere else: `é$1-x`, `${1}é`),
-    * no reference text is a proper prefix of another one (`$1` and `$11` together are out;
-      `$1` and `${11}` are fine).
-    The two remaining defects of the formatter (`100%-$1`, `$1-$11`) violate exactly one of these
-    each; the third one (`$1$2`) is repaired and such templates are accepted. -/
+      literals may contain non-ASCII bytes anywhere else: `é$1-x`, `${1}é`).
+    Nothing is asked about how the reference texts relate to each other: `$1-$11` is safe.
+    All three defects of the formatter found with this property are repaired — adjacent references
+    (`$1$2`, 4d631d3), a literal `%` and a reference text that is a prefix of another one (`100%-$1`,
+    `$1-$11`, b74fba2) — and such templates are accepted. What the guard still excludes are the
+    corners in which the formatter's reference syntax differs from the documented one: `$$`, `$01`,
+    `${1`, `$1}`, and (for the regex side) `$1é`. -/
 def SafeTemplate (tmpl : Bytes) : Bool :=
   let segs := segsOf tmpl.length [] tmpl
   flatSegs segs == tmpl && SafeSegs segs
